@@ -333,3 +333,37 @@ theorem C08_cex_ancestor :
     specGood false ["w".toList, "d.ts".toList] ["w".toList, "d.ts".toList] [] = false := by decide
 
 end TsRs
+
+namespace TsRs
+open Text Path
+
+/-- **`from.parent().unwrap()` in `import_path` cannot panic**: every path that has a file name — every
+path `generate_imports` passes, `out_dir.join(output_path)` of an exportable type — has a parent, so the
+model's `importPath` is never `none` (its encoding of that panic) on such a path. -/
+theorem C08_parent_exists (esm : Bool) (cwd frm imp f : Str) (h : fileName frm = some f) :
+    (∃ dir, parent frm = some dir) ∧ importPath esm cwd frm imp ≠ none := by
+  have hp : ∃ dir, parent frm = some dir := by
+    unfold fileName at h
+    unfold parent
+    cases hc : (components frm).reverse with
+    | nil =>
+      have : components frm = [] := by simpa using hc
+      simp [this] at h
+    | cons c rest =>
+      have hl : (components frm).getLast? = some c := by
+        rw [List.getLast?_eq_head?_reverse, hc]; rfl
+      rw [hl] at h
+      cases c with
+      | root => simp at h
+      | cur => exact ⟨_, rfl⟩
+      | parent => exact ⟨_, rfl⟩
+      | normal n => exact ⟨_, rfl⟩
+  refine ⟨hp, ?_⟩
+  obtain ⟨dir, hd⟩ := hp
+  simp [importPath, hd]
+
+/-- non-vacuity, and the excluded case: `/` has no file name and no parent -/
+example : fileName "./bindings/a/A.ts".toList = some "A.ts".toList ∧ fileName "/".toList = none ∧
+    parent "/".toList = none := by decide
+
+end TsRs
